@@ -430,6 +430,8 @@ func checkC10(c *Ctx) {
 	c.Expect("R4", 7)
 	c.Expect("R5", 2)
 	checkEncoderIntegerText(c, "R7")
+	c.Rule("R10", "the integer fast path cannot overflow: a hand-written n = n*10 + digit loop only runs over slices short enough (zone witness) for the value to fit its type")
+	checkDigitAccumulation(c, "R10")
 	c.Rule("R9", "null and empty stay apart after decoding: no RESP text is replaced by a copy made with an idiom that turns empty into nil or nil into empty")
 	checkTextNilness(c, "R9")
 	c.Rule("R8", "decoder state does not leak between messages: the nesting counter is balanced on every path (shared with C11.R4); inline commands are split on the space byte only")
@@ -787,5 +789,105 @@ func checkTextNilness(c *Ctx, rule string) {
 	}
 	if nbad == 0 {
 		c.OK(rule, "copies of a RESP text keep null and empty apart", token.NoPos, fmt.Sprintf("%d stores into RespValue.Text examined, none is a nil-ness changing copy of another text", nst))
+	}
+}
+
+// checkDigitAccumulation (C10.R10): a hand-written decimal parser (n = n*10 + digit over the bytes of a slice) has no
+// overflow check of its own, so it is only an inverse of the encoder while the number of digits it can consume keeps
+// the value inside the type: at most 18 digits for a signed 64-bit accumulator. The bound must follow from the guards
+// that dominate the loop (zone witness on the length of the slice being scanned).
+func checkDigitAccumulation(c *Ctx, rule string) {
+	p := c.P
+	n := 0
+	for _, fn := range p.FuncsIn(redisPkg) {
+		if p.isTestFn(fn) {
+			continue
+		}
+		var bc *boundsCtx
+		eachInstr(fn, func(b *ssa.BasicBlock, _ int, in ssa.Instruction) {
+			mul, ok := in.(*ssa.BinOp)
+			if !ok || mul.Op != token.MUL {
+				return
+			}
+			var acc *ssa.Phi
+			if k, isC := constInt(mul.Y); isC && k == 10 {
+				acc, _ = mul.X.(*ssa.Phi)
+			} else if k, isC := constInt(mul.X); isC && k == 10 {
+				acc, _ = mul.Y.(*ssa.Phi)
+			}
+			if acc == nil || intBits(acc.Type()) == 0 {
+				return
+			}
+			// the product feeds the accumulator again through an addition with a byte of a slice
+			var src ssa.Value
+			for _, r := range *mul.Referrers() {
+				add, ok := r.(*ssa.BinOp)
+				if !ok || add.Op != token.ADD {
+					continue
+				}
+				feeds := false
+				for _, e := range acc.Edges {
+					if e == ssa.Value(add) {
+						feeds = true
+					}
+				}
+				if !feeds {
+					continue
+				}
+				other := add.X
+				if other == ssa.Value(mul) {
+					other = add.Y
+				}
+				for depth := 0; depth < 6 && other != nil; depth++ {
+					switch x := other.(type) {
+					case *ssa.Convert:
+						other = x.X
+						continue
+					case *ssa.BinOp:
+						if _, isC := constInt(x.Y); isC {
+							other = x.X
+							continue
+						}
+						if _, isC := constInt(x.X); isC {
+							other = x.Y
+							continue
+						}
+					case *ssa.UnOp:
+						if ia, ok := x.X.(*ssa.IndexAddr); ok && x.Op == token.MUL && isByteSliceVal(ia.X) {
+							src = ia.X
+						}
+					}
+					break
+				}
+			}
+			if src == nil {
+				return
+			}
+			n++
+			site := fmt.Sprintf("%s decimal accumulation#%d stays inside its type", fnKey(fn), n)
+			bits := intBits(acc.Type())
+			maxDigits := int64(18)
+			switch {
+			case bits <= 32 && !isUnsigned(acc.Type()):
+				maxDigits = 9
+			case bits <= 32:
+				maxDigits = 9
+			case isUnsigned(acc.Type()):
+				maxDigits = 19
+			}
+			if bc == nil {
+				bc = newBoundsCtx(p, fn)
+			}
+			z := bc.zoneAt(b)
+			if z.entLE(bc.lenOf(src), lconst(maxDigits)) {
+				c.OK(rule, site, mul.Pos(), fmt.Sprintf("the scanned slice has at most %d bytes here (zone witness), so at most %d digits are accumulated into a %d-bit value", maxDigits, maxDigits, bits))
+			} else {
+				c.Fail(rule, site, mul.Pos(), fmt.Sprintf("n = n*10 + digit runs over a slice whose length is not bounded by %d at this point: a %d-digit input wraps the %d-bit accumulator silently (\":9223372036854775808\" decodes to a negative number with no error and re-encodes to different bytes)", maxDigits, maxDigits+1, bits))
+			}
+		})
+	}
+	if n == 0 {
+		c.Note("no hand-written decimal accumulation in proc/redis")
+		c.OK(rule, "no hand-written decimal accumulation", token.NoPos, "integers are parsed by strconv only")
 	}
 }
